@@ -44,6 +44,7 @@ import (
 type Stmt struct {
 	Form   string            `json:"form"`
 	T      string            `json:"t"`
+	U      string            `json:"u,omitempty"`
 	Vals   map[string]string `json:"vals,omitempty"`
 	HasAll bool              `json:"hasall,omitempty"`
 	All    []string          `json:"all,omitempty"`
@@ -228,6 +229,19 @@ func (r *renderer) stmt(importer string, idx int, s Stmt) string {
 	case "from_as":
 		w("    from " + T + " import v as w")
 		w("    vlog.log(" + I + ", " + ix + ", 'from', w)")
+	case "frommod", "frommod_as":
+		// a module name as the imported name: observed is only WHICH module object got bound
+		U, b := r.conc(s.U), r.conc(s.U)
+		if s.Form == "frommod_as" {
+			w("    from " + T + " import " + U + " as mx")
+			b = "mx"
+		} else {
+			w("    from " + T + " import " + U)
+		}
+		w("    if " + b + ".__name__ == " + q(U) + ":")
+		w("        vlog.log(" + I + ", " + ix + ", 'frommod', " + q(s.U) + ")")
+		w("    else:")
+		w("        vlog.log(" + I + ", " + ix + ", 'frommod', 'another-object')")
 	case "from_missing":
 		w("    from " + T + " import zz")
 		w("    vlog.log(" + I + ", " + ix + ", 'bound-a-missing-name')")
@@ -460,6 +474,7 @@ func eqStrs(a, b []string) bool {
 var fieldNames = map[string][]string{
 	"mod":  {"importer", "index", "kind", "target", "count", "value", "object"},
 	"from": {"importer", "index", "kind", "value"},
+	"frommod": {"importer", "index", "kind", "module"},
 	"star": {"importer", "index", "kind", "v", "_h", "pub", "w"},
 }
 
@@ -611,6 +626,7 @@ func judge(cs *Case, got []step) (matched *Rec, ds []diff) {
 type cfgStmt struct {
 	Form string `json:"form"`
 	T    string `json:"t"`
+	U    string `json:"u,omitempty"`
 }
 type cfgMod struct {
 	Kind   string    `json:"kind"`
@@ -632,7 +648,13 @@ func sampleCfgs(rng *rand.Rand, n int, mods []string, maxMain int) string {
 		if t == "nx" && rng.Intn(2) == 0 { // the missing module a little less often
 			t = mods[rng.Intn(len(mods))]
 		}
-		return cfgStmt{forms[rng.Intn(len(forms))], t}
+		if rng.Intn(5) == 0 { // from t import <module name> [as mx]
+			return cfgStmt{[]string{"frommod", "frommod_as"}[rng.Intn(2)], t, mods[rng.Intn(len(mods))]}
+		}
+		if rng.Intn(4) == 0 { // plain imports a little more often: they create module-name attributes
+			return cfgStmt{"import", t, ""}
+		}
+		return cfgStmt{forms[rng.Intn(len(forms))], t, ""}
 	}
 	var b strings.Builder
 	seen := map[string]bool{}
@@ -828,7 +850,7 @@ func main() {
 		common.Inconclusive("property=C19 no case was generated")
 	}
 	// vacuity: every statement form must have met every class of target
-	for _, form := range []string{"import", "import_as", "from", "from_as", "star", "from_missing"} {
+	for _, form := range []string{"import", "import_as", "from", "from_as", "star", "from_missing", "frommod", "frommod_as"} {
 		for _, tc := range []string{"first", "loaded", "loading", "missing"} {
 			if cnt.classes["stmt "+form+" "+tc] == 0 {
 				common.Inconclusive("property=C19 vacuous run: no %s statement met a %s target", form, tc)
